@@ -150,3 +150,155 @@ Theorem C09_e2e_alteration : forall HO, hash_ok HO ->
      ys = firstn k (honest HO data bs q) /\ o = Failed (item_err HO false it)).
 Proof. exact e2e_alteration. Qed.
 Print Assumptions C09_e2e_alteration.
+
+(* ======== Gap audit: the state after each kind of error; exact location for the decode_ranges drivers with
+   the io kind of the reported error; the fsm decoder never panics under any polls ========
+   Proofs in Proofs/GapPolls.v, GapDrivers.v, GapFsmTotal.v, GapStatements.v, GapNonvac.v. *)
+From BaoV Require Import Spec.PlanSpec Spec.PlanWf Proofs.GapLenient.
+From BaoV Require Import Proofs.GapPolls Proofs.GapDrivers Proofs.GapFsmTotal Proofs.GapStatements Proofs.GapNonvac.
+
+(* one call of next that returns an error, sync iterator: a not-found error drains the reader and keeps the
+   pending stack (the plan item is consumed all the same); a hash mismatch pops the expected value, consumes
+   the bytes of the item and pushes NOTHING - after a parent hash mismatch the stack no longer matches the plan
+   (C01_sync_repoll_panics_refuted, C01_sync_repoll_foreign_parent_refuted) *)
+Theorem C09_sync_after_error : forall HO (st st' : dstate HO) e, dec_next HO st = Some (Err e, st') ->
+  match e with
+  | DParentNotFound _ | DLeafNotFound _ => d_stack HO st' = d_stack HO st /\ d_enc HO st' = []
+  | DParentHashMismatch _ | DLeafHashMismatch _ =>
+      exists h d, d_stack HO st = h :: d_stack HO st' /\ d_enc HO st = d ++ d_enc HO st'
+  | DIo _ => False
+  end.
+Proof. exact sync_after_error. Qed.
+Print Assumptions C09_sync_after_error.
+
+(* fsm state machine: a parent not-found error consumes nothing; a parent hash mismatch pops the expected value
+   and pushes the children of the REJECTED pair (C01_fsm_repoll_foreign_leaf_refuted) *)
+Theorem C09_fsm_after_error : forall HO (st st' : rstate HO) e, rd_next HO st = RMore st' (Err e) ->
+  match e with
+  | DParentNotFound _ =>
+      Fsm.r_stack HO st' = Fsm.r_stack HO st /\ Fsm.r_enc HO st' = Fsm.r_enc HO st /\ (blen HO (Fsm.r_enc HO st) < 64)%N
+  | DLeafNotFound _ => Fsm.r_stack HO st' = Fsm.r_stack HO st /\ Fsm.r_enc HO st' = []
+  | DParentHashMismatch _ =>
+      exists h stk0 l r, Fsm.r_stack HO st = h :: stk0 /\ Fsm.r_enc HO st = (l ++ r) ++ Fsm.r_enc HO st' /\
+        length l = 32%nat /\ length r = 32%nat /\
+        (Fsm.r_stack HO st' = l :: r :: stk0 \/ Fsm.r_stack HO st' = l :: stk0 \/
+         Fsm.r_stack HO st' = r :: stk0 \/ Fsm.r_stack HO st' = stk0)
+  | DLeafHashMismatch _ =>
+      exists h d, Fsm.r_stack HO st = h :: Fsm.r_stack HO st' /\ Fsm.r_enc HO st = d ++ Fsm.r_enc HO st'
+  | DIo _ => False
+  end.
+Proof. exact fsm_after_error. Qed.
+Print Assumptions C09_fsm_after_error.
+
+(* no stream makes the fsm decoder panic, not even when it is polled again after errors: for EVERY expected root
+   value, stream, geometry and well-formed query, no call of next in any sequence of calls returns Panic.
+   No assumption on the hash functions.  (For the sync iterator this fails: C01_sync_repoll_panics_refuted.) *)
+Theorem C09_fsm_never_panics : forall HO (root : hash HO) (size bs : N) (q : ranges) (stream : bytes HO) tr st,
+  (size <= 2 ^ 63)%N -> (bs <= 10)%N -> wf_ranges q = true ->
+  rd_polls HO (rd_new HO root q (mkTree size bs) stream) tr st -> ~ In Panic tr.
+Proof. exact fsm_never_panics. Qed.
+Print Assumptions C09_fsm_never_panics.
+
+(* the plan decoder of the fsm over any plan with a sound stack discipline (C15_pre_stack) and tail_ok (C01_tail_ok_def) *)
+Theorem C09_fsm_plan_never_panics : forall HO plan (stk : list (hash HO)) (enc : bytes HO),
+  pre_stack_ok plan (N.of_nat (length stk)) = true -> tail_ok plan ->
+  ~ In Panic (p_res HO (poll_list HO (step_fsm HO) plan stk enc)).
+Proof. exact fsm_plan_never_panics. Qed.
+Print Assumptions C09_fsm_plan_never_panics.
+
+(* exact location for the two decode_ranges drivers.  The stream is the honest encoding cut at byte p, which lies
+   in item k: both drivers apply exactly the items lying completely before the cut (leaves written, parents
+   saved: apply_items) and return the not-found error naming item k, whose io kind is UnexpectedEof; if a save
+   fails first, its io error (or panic) is returned instead (ranges_result, C01_ranges_result) *)
+Theorem C09_e2e_drivers_truncation : forall HO, hash_ok HO ->
+  forall (data : bytes HO) (bs : N) (q : ranges),
+  (blen HO data <= 2 ^ 63)%N -> (bs <= 10)%N -> wf_ranges q = true ->
+  forall p k : nat,
+  (length (flat HO (firstn k (honest HO data bs q))) <= p)%nat ->
+  (p < length (flat HO (firstn (S k) (honest HO data bs q))))%nat ->
+  let stream := firstn p (flat HO (honest HO data bs q)) in
+  forall (target : bytes HO) (ob : outboard HO),
+  ob_root ob = root_hash HO data -> ob_tree ob = mkTree (blen HO data) bs ->
+  exists it, nth_error (honest HO data bs q) k = Some it /\
+    dec_err_kind (item_err HO true it) = KUnexpectedEof /\
+    let a := apply_items HO (firstn k (honest HO data bs q)) target ob in
+    (exists st', decode_ranges HO stream q target ob =
+       (ranges_result (a_res HO a) (Failed (item_err HO true it)), a_target HO a, a_ob HO a, st')) /\
+    (exists st', decode_ranges_fsm HO stream q target ob =
+       (ranges_result (a_res HO a) (Failed (item_err HO true it)), a_target HO a, a_ob HO a, st')) /\
+    (a_res HO a = SOk -> ranges_result (a_res HO a) (Failed (item_err HO true it)) = Err (item_err HO true it)).
+Proof. exact drivers_truncation. Qed.
+Print Assumptions C09_e2e_drivers_truncation.
+
+(* byte p (= b) of the honest encoding replaced by b' <> b: the items before the altered one are applied and the
+   hash-mismatch error naming item k is returned; its io kind is InvalidData *)
+Theorem C09_e2e_drivers_alteration : forall HO, hash_ok HO ->
+  forall (data : bytes HO) (bs : N) (q : ranges),
+  (blen HO data <= 2 ^ 63)%N -> (bs <= 10)%N -> wf_ranges q = true ->
+  forall (p k : nat) (b b' : B HO),
+  (length (flat HO (firstn k (honest HO data bs q))) <= p)%nat ->
+  (p < length (flat HO (firstn (S k) (honest HO data bs q))))%nat ->
+  nth_error (flat HO (honest HO data bs q)) p = Some b -> b' <> b ->
+  let stream := firstn p (flat HO (honest HO data bs q)) ++ b' :: skipn (S p) (flat HO (honest HO data bs q)) in
+  forall (target : bytes HO) (ob : outboard HO),
+  ob_root ob = root_hash HO data -> ob_tree ob = mkTree (blen HO data) bs ->
+  exists it, nth_error (honest HO data bs q) k = Some it /\
+    dec_err_kind (item_err HO false it) = KInvalidData /\
+    let a := apply_items HO (firstn k (honest HO data bs q)) target ob in
+    (exists st', decode_ranges HO stream q target ob =
+       (ranges_result (a_res HO a) (Failed (item_err HO false it)), a_target HO a, a_ob HO a, st')) /\
+    (exists st', decode_ranges_fsm HO stream q target ob =
+       (ranges_result (a_res HO a) (Failed (item_err HO false it)), a_target HO a, a_ob HO a, st')) /\
+    (a_res HO a = SOk -> ranges_result (a_res HO a) (Failed (item_err HO false it)) = Err (item_err HO false it)).
+Proof. exact drivers_alteration. Qed.
+Print Assumptions C09_e2e_drivers_alteration.
+
+(* the io kind of the error naming an honest item *)
+Theorem C09_item_err_kind : forall HO (nf : bool) (it : item HO),
+  dec_err_kind (item_err HO nf it) = if nf then KUnexpectedEof else KInvalidData.
+Proof. exact item_err_kind. Qed.
+Print Assumptions C09_item_err_kind.
+
+(* a save into an io-backed or empty outboard never panics, so there the drivers return an error value *)
+Theorem C09_io_outboards_never_panic : forall HO (ys : list (item HO)) (target : bytes HO) (ob : outboard HO),
+  (ob_k ob = PreIO \/ ob_k ob = PostIO \/ ob_k ob = EmptyOb) -> a_res HO (apply_items HO ys target ob) <> SPanic.
+Proof. exact apply_items_io_kind. Qed.
+Print Assumptions C09_io_outboards_never_panic.
+
+(* the hypotheses of the two driver theorems hold for a concrete blob, cut / altered inside its first leaf *)
+Theorem C09_e2e_drivers_nonvacuous :
+  exists HO, hash_ok HO /\
+  exists (data : bytes HO) (bs : N) (q : ranges) (ob : outboard HO) (p k : nat) (b b' : B HO),
+    (blen HO data <= 2 ^ 63)%N /\ (bs <= 10)%N /\ wf_ranges q = true /\
+    (length (flat HO (firstn k (honest HO data bs q))) <= p)%nat /\
+    (p < length (flat HO (firstn (S k) (honest HO data bs q))))%nat /\
+    nth_error (flat HO (honest HO data bs q)) p = Some b /\ b' <> b /\
+    ob_root ob = root_hash HO data /\ ob_tree ob = mkTree (blen HO data) bs.
+Proof. exact c09_drivers_nonvacuous. Qed.
+Print Assumptions C09_e2e_drivers_nonvacuous.
+
+(* ---- the plan iterator INSIDE the decoders never panics (proofs in Proofs/GapIterTotal.v) ----
+   Model/Iter.v records a panic of PreOrderPartialChunkIterRef::next (its two unwrap()s) as pp_next st = Some None;
+   response_next, and with it dec_next / rd_next, treat such a state as "iterator exhausted", so the theorems
+   "o <> Panicked" above do not see it.  It never happens: in every state the iterator of a decoder reaches,
+   pp_next is not Some None, and when next() reports exhaustion the iterator's stack and buffer are empty *)
+From BaoV Require Proofs.PlanRun.
+From BaoV Require Import Proofs.GapIterTotal.
+
+Theorem C09_iterator_never_panics : forall size bs q, (size <= 2 ^ 63)%N -> (bs <= 10)%N -> wf_ranges q = true ->
+  forall plan st, PlanRun.steps response_next (response_new (mkTree size bs) q) plan st ->
+  pp_next st <> Some None /\
+  (response_next st = None -> pp_stack st = [] /\ pp_buffer st = []).
+Proof. exact iter_never_panics. Qed.
+Print Assumptions C09_iterator_never_panics.
+
+Theorem C09_decoders_iterator_never_panics : forall HO (root : hash HO) (size bs : N) (q : ranges) (stream : bytes HO),
+  (size <= 2 ^ 63)%N -> (bs <= 10)%N -> wf_ranges q = true ->
+  (forall tr st, dec_polls HO (dec_new HO root (mkTree size bs) stream q) tr st ->
+     pp_next (d_inner HO st) <> Some None /\
+     (dec_next HO st = None -> pp_stack (d_inner HO st) = [] /\ pp_buffer (d_inner HO st) = [])) /\
+  (forall tr st, rd_polls HO (rd_new HO root q (mkTree size bs) stream) tr st ->
+     pp_next (Fsm.r_iter HO st) <> Some None /\
+     (forall rd, rd_next HO st = RDone rd -> pp_stack (Fsm.r_iter HO st) = [] /\ pp_buffer (Fsm.r_iter HO st) = [])).
+Proof. exact decoders_iter_never_panics. Qed.
+Print Assumptions C09_decoders_iterator_never_panics.
